@@ -985,6 +985,8 @@ Not applicable (run-time values): resolution of references, nested CHOICE/SEQUEN
     single_element_list(m, ctx, "C07.list");
     nesting(m, ctx, "C07.nest");
     nested_struct_like(m, ctx, "C07.list");
+    // "integers of any magnitude and sign": the literal written for a linked integer value is decided under C06.literal
+    borrow(ctx, "C06", "C06.literal", "C07.literal", &mut |sub| crate::rules::c06::run(m, sub));
     oid(m, ctx, &ev);
     oid_whole(m, ctx);
     strings(m, ctx, &ev);
